@@ -343,41 +343,43 @@ class BatteryManager(ComponentManager):  # pylint: disable=too-many-instance-att
         Returns:
             Power bounds for given batteries.
         """
+        # The pool calculates the bounds it advertises from the same numbers, in another
+        # order.  `math.fsum` is exactly rounded, so both get the same result.
         return PowerBounds(
-            inclusion_lower=sum(
+            inclusion_lower=math.fsum(
                 max(
                     battery.power_bounds.inclusion_lower,
-                    sum(
+                    math.fsum(
                         inverter.active_power_inclusion_lower_bound
                         for inverter in inverters
                     ),
                 )
                 for battery, inverters in pairs_data
             ),
-            inclusion_upper=sum(
+            inclusion_upper=math.fsum(
                 min(
                     battery.power_bounds.inclusion_upper,
-                    sum(
+                    math.fsum(
                         inverter.active_power_inclusion_upper_bound
                         for inverter in inverters
                     ),
                 )
                 for battery, inverters in pairs_data
             ),
-            exclusion_lower=sum(
+            exclusion_lower=math.fsum(
                 min(
                     battery.power_bounds.exclusion_lower,
-                    sum(
+                    math.fsum(
                         inverter.active_power_exclusion_lower_bound
                         for inverter in inverters
                     ),
                 )
                 for battery, inverters in pairs_data
             ),
-            exclusion_upper=sum(
+            exclusion_upper=math.fsum(
                 max(
                     battery.power_bounds.exclusion_upper,
-                    sum(
+                    math.fsum(
                         inverter.active_power_exclusion_upper_bound
                         for inverter in inverters
                     ),
